@@ -122,7 +122,7 @@ def run(ctx):
     disagreements = []
     req, got = [], []
     SITES = ["body", "control", "attr", "anon", "callbody", "topdef", "topdef-in-callbody", "nested", "filter"]
-    per_cell = 12 if tier == "quick" else 300
+    per_cell = 12 if tier == "quick" else 2000
     cells = 0
     for site in SITES:
         for nm in ("zq", "max"):
@@ -188,7 +188,7 @@ def run(ctx):
 
     # ---- __M_locals: defs called by name see page arguments and current assignments ------------------------------
     req2, got2 = [], []
-    for _ in range(100 if tier == "quick" else 3000):
+    for _ in range(100 if tier == "quick" else 30000):
         names = ["a", "b", "c", "len"]
         page = {n: 20 + names.index(n) for n in rng.sample(names[:3], rng.randint(0, 2))}
         ctxv = {n: 10 + names.index(n) for n in rng.sample(names[:3], rng.randint(0, 3)) if n not in page}
@@ -288,7 +288,7 @@ def run(ctx):
     from harness import c04_idents
     from mako.template import Template as _T
     req4, got4 = [], []
-    nid = 150 if tier == "quick" else 5000
+    nid = 150 if tier == "quick" else 40000
     for _ in range(nid):
         src = c04_idents.gen_template(rng)
         ctx.evaluations += 1
